@@ -102,6 +102,22 @@ def generate(rng, tier, run, seed=0):
                         vals.append(old if (i + 1, None) in quals else 'Q' * (ch.max_len + 1 if ch.max_len < 40 else 41))
                 case['doc'][k]['vals'] = vals
                 case['faults'] = case['faults'] + [{'kind': 'flood', 'line': k, 'ele': None, 'comp': None, 'code': None, 'seg_id': case['doc'][k]['id']}]
+        if 'doc' in case and rng.random() < 0.1:
+            # many errors on one set: a later set of a group repeats an earlier control number, names another transaction
+            # type, and its trailer disagrees in count and (over-long) control number - six or more distinct set-level codes
+            # for one AK5/IK5, which has room for five
+            cands = [g_ for g_ in WL.source_groups(case['doc']) if len(g_['sets']) > 1]
+            if cands:
+                g_ = rng.choice(cands)
+                j = rng.randrange(1, len(g_['sets']))
+                first, later = g_['sets'][rng.randrange(0, j)], g_['sets'][j]
+                if later['se'] is not None and len(later['se']['vals']) > 1 and len(later['st']['vals']) > 1:
+                    later['st']['vals'][1] = first['st']['vals'][1]
+                    later['st']['vals'][0] = '834' if later['st']['vals'][0] != '834' else '835'
+                    later['se']['vals'][1] = '00012345678'
+                    if later['se']['vals'][0].isdigit():
+                        later['se']['vals'][0] = str(int(later['se']['vals'][0]) + 3)
+                    case['faults'] = case['faults'] + [{'kind': 'set_pileup', 'line': later['a'], 'ele': None, 'comp': None, 'code': None, 'seg_id': 'ST'}]
         if 'doc' in case:
             # the source must not use ~ * : itself when its data contain them: pick_delims already avoids data characters
             case['cfg']['sinks'] = ['ack']
